@@ -22,7 +22,9 @@ def drive_and_validate(run, cases, files, shards):
         new = d != state["last"]
         state["last"] = d
         return new
-    consumed, verdicts = core.validate_trace("trace/Trace_C11.tla", "trace/Trace_C11.cfg", trace_p, shards=shards, timeout=3000,
+    cfg = run.path("Trace_C11.cfg")
+    open(cfg, "w").write("SPECIFICATION Spec\nCONSTANT KnownDevs = {%s}\nPOSTCONDITION Accepted\nCHECK_DEADLOCK FALSE\n" % ", ".join('"%s"' % d for d in sorted(run.known)))
+    consumed, verdicts = core.validate_trace("trace/Trace_C11.tla", cfg, trace_p, shards=shards, timeout=3000,
                                              group_start=lambda line: '"variant":"base' in line)
     run.judge(events, verdicts, consumed)
     return events
